@@ -241,6 +241,12 @@ def misuse_menu(s, opts, d):
                         evs.append(("x-len", via, path, "shorter"))
                     if len(shape) > 1 and len(set(shape)) > 1 and all(sh > 0 for sh in shape):
                         evs.append(("x-len", via, path, "reshape"))
+                    if len(shape) > 1 and shape[0] > 0:
+                        # the leading extent is right, another one is not (rows too long / too short)
+                        for ax in range(1, len(shape)):
+                            evs.append(("x-len", via, path, "ax%d+" % ax))
+                            if shape[ax] > 1:
+                                evs.append(("x-len", via, path, "ax%d-" % ax))
                     if not xt.is_dyn(nt[1]) and nt[2][0] is None and all(d is not None for d in nt[2][1:]):
                         # the integer form of an update ("keep the length"): any other integer is another length
                         evs.append(("x-len", via, path, "int-longer"))
@@ -320,6 +326,8 @@ def apply_misuse(s, ev):
             shape[0] += 1
         elif ev[3] == "shorter":
             shape[0] -= 1
+        elif ev[3].startswith("ax"):
+            shape[int(ev[3][2:-1])] += 1 if ev[3].endswith("+") else -1
         else:
             flat = int(np.prod(shape))
             shape = [flat] + [1] * (len(shape) - 1)
